@@ -1458,3 +1458,91 @@ def count_field_sweep(b, kind, cache_key=None, cache=None):
         M = (1 << (8 * size)) - 1
         for v in sorted(set(x for x in [0, cur + 1, cur + 2, 2 * cur + 1, 2000, M] if 0 <= x <= M and x != cur)):
             yield ("%s=%d" % (name, v), {"op": "set", "off": off, "hex": enc(v, size, be)})
+
+
+def _wide_nul(b, o, end):
+    i = o
+    while i + 1 < end:
+        if b[i] == 0 and b[i + 1] == 0:
+            return i - o
+        i += 2
+    return end - o
+
+
+def version_entries(b):
+    """Locate the RT_VERSION structures of a PE the way module/pe/version_info.rs walks them.  Returns
+    [(kind, offset, key_len)] for every StringFileInfo ("sfi"), StringTable ("table") and String ("string") header."""
+    out = []
+    pat = "VS_VERSION_INFO".encode("utf-16-le") + b"\0\0"
+    pos = b.find(pat)
+    while pos >= 6:
+        start = pos - 6
+        end = start + u16(b, start)
+        off = start + 92
+        vfi = "VarFileInfo".encode("utf-16-le") + b"\0\0"
+        guard = 0
+        while b[off + 6:off + 6 + len(vfi)] == vfi and guard < 8:
+            out.append(("varfileinfo", off, len(vfi) - 2))
+            off += (u16(b, off) + 3) & ~3
+            guard += 1
+            if u16(b, off) == 0:
+                break
+        sfi = "StringFileInfo".encode("utf-16-le") + b"\0\0"
+        n = 0
+        while off < min(end, len(b)) and b[off + 6:off + 6 + len(sfi)] == sfi and n < 4:
+            out.append(("sfi", off, len(sfi) - 2))
+            sfi_len = (u16(b, off) + 3) & ~3
+            t = off + 36
+            tn = 0
+            while t < min(off + sfi_len, len(b)) and tn < 4:
+                tlen = (u16(b, t) + 3) & ~3
+                kl = _wide_nul(b, t + 6, len(b))
+                out.append(("table", t, kl))
+                s = t + ((6 + kl + 2 + 3) & ~3)
+                sn = 0
+                while s < min(t + tlen, len(b)) and sn < 64:
+                    sl = (u16(b, s) + 3) & ~3
+                    if sl == 0:
+                        break
+                    out.append(("string", s, _wide_nul(b, s + 6, min(s + sl, len(b)))))
+                    s += sl
+                    sn += 1
+                if tlen == 0:
+                    break
+                t += tlen
+                tn += 1
+            if sfi_len == 0:
+                break
+            off += sfi_len
+            n += 1
+        pos = b.find(pat, pos + 2)
+    return out
+
+
+def version_string_sweep(b):
+    """Directed family for the RT_VERSION walk: for the first three and the last String entry of every table, and for
+    every StringTable / StringFileInfo / VarFileInfo header: wLength := every value from 0 to a few bytes past the
+    aligned start of the value (so the declared entry ends before, inside, right after the wide key and around the
+    value start), 0xFFFE, 0xFFFF; the key's NUL terminator removed (alone and with each of those lengths around the key
+    end); wValueLength := 0 / 0xFFFF.  Yields (what, edits)."""
+    ents = version_entries(b)
+    strings = [e for e in ents if e[0] == "string"]
+    pick = [e for e in ents if e[0] != "string"] + strings[:3] + strings[-1:]
+    seen = set()
+    for kind, off, kl in pick:
+        if off in seen:
+            continue
+        seen.add(off)
+        vstart = (6 + kl + 2 + 3) & ~3
+        cur = u16(b, off)
+        for v in list(range(0, vstart + 8)) + [0xFFFE, 0xFFFF, cur - 1, cur + 1, cur + 2]:
+            if 0 <= v <= 0xFFFF and v != cur:
+                yield ("%s@%#x.wLength=%d" % (kind, off, v), [{"op": "set", "off": off, "hex": enc(v, 2, False)}])
+        for v in (0, 0xFFFF):
+            yield ("%s@%#x.wValueLength=%d" % (kind, off, v), [{"op": "set", "off": off + 2, "hex": enc(v, 2, False)}])
+        # no NUL terminator after the key
+        nul = off + 6 + kl
+        for v in [cur] + list(range(6 + kl - 2, vstart + 6)):
+            if 0 <= v <= 0xFFFF:
+                yield ("%s@%#x.key-without-NUL,wLength=%d" % (kind, off, v),
+                       [{"op": "set", "off": nul, "hex": "4100"}, {"op": "set", "off": off, "hex": enc(v, 2, False)}])
